@@ -173,9 +173,10 @@ PROPS["C28"] = dict(
                          functions=["stdlib slice/length/merge through compiled VRL programs (argument plumbing: SliceFn/LengthFn/MergeFn::resolve)"],
                          text="the argument plumbing of the three function expressions (resolve: optional end, deep default) is outside the extracted bodies: slice/length/merge called from VRL agree with a reference model on the stated domain"),
                     dict(unit="string_laws", bound="all 1555 strings over {a, B, space, comma, e-acute, sharp-s} up to length 4 x 5 separators x 6 limits; all 128 sub-lists of 7 items for unique/compact/keys/values: 58047 law instances",
+                         bound_thorough="all 9331 strings over the same alphabet up to length 5 x 5 separators x 6 limits; all 128 sub-lists of 7 items: 345759 law instances",
                          functions=["stdlib upcase, downcase, strip_whitespace, strlen, split, join, starts_with, ends_with, contains, truncate, unique, compact, keys, values (std str / IndexSet / iterator code outside both verifiers)"],
                          text="the string and collection laws of the property on the stated domain: idempotence of upcase/downcase/strip_whitespace, strip_whitespace = trim, strlen = scalar count, join(split(s, d), d) == s, starts_with/ends_with/contains agree with substring position, truncate keeps min(n, len) characters (+ suffix), unique keeps first occurrences, compact drops exactly the empty items, keys/values agree with the object")] + [
-                    dict(unit="casing_" + f, bound="all 4681 strings over {a, B, space, comma, e-acute, sharp-s, underscore, 1} up to length 4", functions=["stdlib " + f + " (convert_case)"],
+                    dict(unit="casing_" + f, bound="all 4681 strings over {a, B, space, comma, e-acute, sharp-s, underscore, 1} up to length 4", bound_thorough="all 37449 strings over the same alphabet up to length 5", functions=["stdlib " + f + " (convert_case)"],
                          text=f + "(" + f + "(s)) == " + f + "(s) on the stated domain") for f in ["snakecase", "kebabcase", "screamingsnakecase", "camelcase", "pascalcase"]],
     trusted=["verus prelude collections.rs: bytes::Bytes::slice and Vec::drain(range).collect() return the sub-sequence [start, end) (and panic unless start <= end <= len, which is therefore a proof obligation of the caller); BTreeMap get_mut/insert/iteration as a finite map visited once per key; Value/KeyString clone is the identity",
              "`len as i64` equals the length (std allocation bound isize::MAX; prelude len_i64)",
@@ -264,6 +265,7 @@ PROPS["C04"] = dict(
           "k_try_and_table", "k_try_boolean", "k_ipv4_mask", "k_ipv6_mask"],
     kani_quick=["k_ipv4_mask", "k_ipv6_mask", "c10_int_cmp", "c11_int_arith", "c11_int_rem_class", "c11_int_div_class", "c11_float_div_class", "c11_mixed_div_class", "k_abs_int", "k_abs_float", "k_to_int_scalar", "k_to_float_scalar"],
     bounded_native=[dict(unit="compile_small_sources", bound="all 928232 source texts over a 13-letter alphabet (quote, backslash, newline, no-break space, a . = space { ' } ( 0) up to length 5, bare and as string / raw-string / regex / timestamp literals",
+                         bound_thorough="all 10581850 source texts over the same 13-letter alphabet: bare up to length 6, as string literals up to length 5, as raw-string / regex / timestamp literals up to length 4",
                          functions=["lexer (src/parser/lex.rs incl. unescape_string_literal), LALRPOP parser, compiler, diagnostic::Formatter, Runtime::resolve"],
                          text="no contract reaches the lexer, the generated parser or the diagnostics renderer (str slicing, generated code): on the stated domain compiling, rendering the diagnostics and running the accepted programs never panics"),
                     dict(unit="stdlib_watchdog", bound="88 scripted stdlib calls with empty / zero / negative / extreme arguments, each in a child process (10 s, 2 GB)",
